@@ -440,6 +440,66 @@ fn main() {
                 fjall::verif::disarm_fault();
                 format!("ok fired={n}")
             }
+            "ingest" => {
+                // ingest <ks> k:v,k:v,...   (ascending keys; v = '-' for empty; 'T' = tombstone)
+                let Some(k) = w.ks.get(a[0]) else { println!("R {} ingest => err:NoKs", ln + 1); continue };
+                let k = k.inner().clone();
+                let r = (|| -> fjall::Result<()> {
+                    let mut ing = k.start_ingestion()?;
+                    if let Some(list) = a.get(1) {
+                        for kv in list.split(',') {
+                            let (kk, vv) = kv.split_once(':').expect("k:v");
+                            if vv == "T" {
+                                ing.write_tombstone(unhex(kk))?;
+                            } else {
+                                ing.write(unhex(kk), unhex(vv))?;
+                            }
+                        }
+                    }
+                    ing.finish()
+                })();
+                res(&r)
+            }
+            "readall" => {
+                // readall <ks> <k1,k2,...>: every read method of the keyspace, in one canonical line
+                let Some(k) = w.ks.get(a[0]) else { println!("R {} readall => err:NoKs", ln + 1); continue };
+                let k = k.inner().clone();
+                let mut out = vec![];
+                out.push(format!("iter={}", collect(k.iter())));
+                out.push(format!("rev={}", collect(k.iter().rev())));
+                {
+                    // the three single-field accessors of Guard
+                    let keys: Vec<String> = k.iter().map(|g| g.key().map(|x| hex(&x)).unwrap_or_else(|e| format!("err:{}", errname(&e)))).collect();
+                    let vals: Vec<String> = k.iter().map(|g| g.value().map(|x| hex(&x)).unwrap_or_else(|e| format!("err:{}", errname(&e)))).collect();
+                    let sizes: Vec<String> = k.iter().map(|g| g.size().map(|x| x.to_string()).unwrap_or_else(|e| format!("err:{}", errname(&e)))).collect();
+                    out.push(format!("keys=[{}]", keys.join(",")));
+                    out.push(format!("values=[{}]", vals.join(",")));
+                    out.push(format!("sizes=[{}]", sizes.join(",")));
+                }
+                out.push(format!("first={}", fmt_guard(k.first_key_value())));
+                out.push(format!("last={}", fmt_guard(k.last_key_value())));
+                out.push(format!("len={}", k.len().map(|n| n.to_string()).unwrap_or_else(|e| format!("err:{}", errname(&e)))));
+                out.push(format!("empty={}", k.is_empty().map(|n| n.to_string()).unwrap_or_else(|e| format!("err:{}", errname(&e)))));
+                out.push(format!("prefix={}", collect(k.prefix(vec![0x6b]))));
+                out.push(format!("range={}", collect(k.range(vec![0x6b, 0x32]..vec![0x6b, 0x35]))));
+                {
+                    // consumed from both ends
+                    let mut it = k.iter();
+                    let f = fmt_guard(it.next());
+                    let b = fmt_guard(it.next_back());
+                    out.push(format!("ends={}|{}|{}", f, b, collect(it)));
+                }
+                if let Some(keys) = a.get(1) {
+                    for key in keys.split(',') {
+                        let kb = unhex(key);
+                        let g = match k.get(&kb) { Ok(Some(v)) => hex(&v), Ok(None) => "none".into(), Err(e) => format!("err:{}", errname(&e)) };
+                        let c = k.contains_key(&kb).map(|b| b.to_string()).unwrap_or_else(|e| format!("err:{}", errname(&e)));
+                        let z = match k.size_of(&kb) { Ok(Some(v)) => v.to_string(), Ok(None) => "none".into(), Err(e) => format!("err:{}", errname(&e)) };
+                        out.push(format!("{key}={g}/{c}/{z}"));
+                    }
+                }
+                out.join(";")
+            }
             "delete_ks" => {
                 let Some(k) = w.ks.remove(a[0]) else { println!("R {} delete_ks => err:NoKs", ln + 1); continue };
                 let keep_handle = a.get(1).map(|x| *x == "keep").unwrap_or(false);
@@ -543,18 +603,36 @@ fn main() {
                 format!("[{}]", v.join(","))
             }
             "journal_count" => format!("n={}", w.db.as_ref().expect("db").inner().journal_count()),
-            "spawn" => {
+            "spawn" | "spawn_free" => {
+                let pausable = t[0] == "spawn";
                 let tid = a[0].to_string();
                 let cmd: Vec<String> = a[1..].iter().map(|x| (*x).to_string()).collect();
                 let db = w.db.as_ref().expect("db").inner().clone();
                 let ks: HashMap<String, Keyspace> = w.ks.iter().map(|(n, k)| (n.clone(), k.inner().clone())).collect();
                 let h = std::thread::spawn(move || {
-                    fjall::verif::set_thread_pausable(true);
+                    fjall::verif::set_thread_pausable(pausable);
                     let t: Vec<&str> = cmd.iter().map(String::as_str).collect();
                     simple_op(&db, &ks, &t).unwrap_or_else(|| "err:NotSpawnable".into())
                 });
                 threads.insert(tid, h);
                 "ok".into()
+            }
+            "join_timeout" => {
+                // join_timeout <tid> <ms>: result if the thread finished within <ms>, else "pending" (thread stays registered)
+                let ms: u64 = a.get(1).map(|x| x.parse().expect("ms")).unwrap_or(300);
+                let deadline = std::time::Instant::now() + std::time::Duration::from_millis(ms);
+                loop {
+                    if threads.get(a[0]).map(|h| h.is_finished()).unwrap_or(true) {
+                        break match threads.remove(a[0]) {
+                            Some(h) => h.join().unwrap_or_else(|_| "err:ThreadPanicked".into()),
+                            None => "err:NoThread".into(),
+                        };
+                    }
+                    if std::time::Instant::now() >= deadline {
+                        break "pending".into();
+                    }
+                    std::thread::sleep(std::time::Duration::from_millis(5));
+                }
             }
             "join" => match threads.remove(a[0]) {
                 Some(h) => h.join().unwrap_or_else(|_| "err:ThreadPanicked".into()),
@@ -795,7 +873,13 @@ fn main() {
                 w.snaps.remove(a[0]);
                 "ok".into()
             }
-            _ => format!("err:UnknownCommand:{}", t[0]),
+            _ => {
+                let r = w.db.as_ref().and_then(|d| {
+                    let ks: HashMap<String, Keyspace> = w.ks.iter().map(|(n, k)| (n.clone(), k.inner().clone())).collect();
+                    simple_op(d.inner(), &ks, &t)
+                });
+                r.unwrap_or_else(|| format!("err:UnknownCommand:{}", t[0]))
+            }
         };
         println!("R {} {} => {}", ln + 1, t[0], out);
     }
